@@ -46,7 +46,7 @@ type list[K any] struct {
 }
 
 func viewOrd[K interface {
-	~int | ~string
+	~int | ~string | ~float64
 }](n *listz.SkipNode[K, int]) *nodeView[K] {
 	if n == nil {
 		return nil
@@ -74,7 +74,7 @@ func viewCmp[K any](n *listz.SkipNodeCmp[K, int]) *nodeView[K] {
 }
 
 func wrapOrd[K interface {
-	~int | ~string
+	~int | ~string | ~float64
 }](s *listz.SkipList[K, int]) *list[K] {
 	l := &list[K]{ptr: s, cmp: func(a, b K) int { return stdcmp.Compare(a, b) }}
 	l.set, l.setNx, l.setX = s.Set, s.SetNx, s.SetX
